@@ -18,8 +18,9 @@ def place_key(pl):
 
 
 class Walker:
-    def __init__(self, fn, sigma, watch, classify=None, max_paths=200000, decide=None):
+    def __init__(self, fn, sigma, watch, classify=None, max_paths=200000, decide=None, edge_watch=None):
         self.decide = decide
+        self.edge_watch = edge_watch      # optional: event for a switch edge taken, called with (fn, block, index | "o")
         self.fn = fn
         self.sigma = sigma
         self.watch = watch
@@ -66,6 +67,11 @@ class Walker:
                     val = None
                     if rv["k"] == "use" and rv["op"]["k"] == "const" and rv["op"].get("ck") == "bool":
                         val = rv["op"]["int"]
+                    elif rv["k"] == "use" and rv["op"]["k"] in ("copy", "move") and not rv["op"]["place"]["p"]:
+                        val = self._env_get(env, rv["op"]["place"]["l"])      # `let inverted = <matches! temporary>`
+                    elif rv["k"] == "unop" and rv.get("op") == "Not" and rv["a"]["k"] in ("copy", "move") and not rv["a"]["place"]["p"]:
+                        v0 = self._env_get(env, rv["a"]["place"]["l"])
+                        val = None if v0 is None else (0 if v0 else 1)
                     env = self._env_set(env, dst["l"], val)
             ev = self.watch(self.fn, (bid, i), st)
             if ev is not None:
@@ -120,7 +126,14 @@ class Walker:
                     for v, tb, name in t["targets"]:
                         if (v != 0) == bool(val):
                             forced = tb
-            if forced is not None:
+            if self.edge_watch is not None:
+                # edges are followed one by one so that the edge taken can be reported
+                cand = [(tb, i) for i, (v, tb, name) in enumerate(t["targets"])] + [(t["otherwise"], "o")]
+                if forced is not None:
+                    cand = [c for c in cand if c[0] == forced][:1]
+                for tb, ei in cand:
+                    nexts.append((tb, self.edge_watch(self.fn, bid, ei)))
+            elif forced is not None:
                 nexts.append(forced)
             else:
                 seen = set()
@@ -133,8 +146,12 @@ class Walker:
         res = set()
         pre = tuple(events)
         for nb in nexts:
+            eev = ()
+            if isinstance(nb, tuple):
+                nb, ev1 = nb
+                eev = (ev1,) if ev1 is not None else ()
             for suffix in self._go(nb, env):
-                res.add(pre + suffix)
+                res.add(pre + eev + suffix)
                 if len(res) > self.max_paths:
                     raise RuntimeError("path explosion in %s" % self.fn.key)
         self.onstack.discard(state)
@@ -147,7 +164,7 @@ def walk(fn, sigma, watch, classify=None):
     return w.run()
 
 
-def decision_table(fn, domains, classify, watch, decide=None):
+def decision_table(fn, domains, classify, watch, decide=None, edge_watch=None, watch_for=None):
     """enumerate all assignments of `domains` ({name: [variants]}) and return
     {tuple(sorted sigma items): set(event sequences)} plus the number of tracked switches seen"""
     import itertools
@@ -155,7 +172,8 @@ def decision_table(fn, domains, classify, watch, decide=None):
     table = {}
     for combo in itertools.product(*[domains[n] for n in names]):
         sigma = dict(zip(names, combo))
-        w = Walker(fn, sigma, watch, classify, decide=decide)
+        # watch_for(sigma) builds a watcher that may evaluate values under the cell's assumptions (path-sensitive events)
+        w = Walker(fn, sigma, watch_for(sigma) if watch_for is not None else watch, classify, decide=decide, edge_watch=edge_watch)
         table[tuple(combo)] = w.run()
     seen = {n: 0 for n in names}
     for bid in fn.order:
